@@ -45,18 +45,18 @@ var snippets = []snippet{
 }
 
 type Case struct {
-	Ops        []int             `json:"ops"`   // indices into snippets; operation k is named "Op<k>" unless Anonymous
-	Anonymous  bool              `json:"anonymous"`
-	Damage     string            `json:"damage"` // "", "parse", "validation", "variable"
-	OpName     string            `json:"operation_name"`
-	HasOpName  bool              `json:"has_operation_name"`
-	Transport  string            `json:"transport"` // get post graphql urlencoded
-	Accept     string            `json:"accept"`
-	HasAccept  bool              `json:"has_accept"`
-	RespCT     string            `json:"response_content_type"` // configured ResponseHeaders Content-Type ("" = none)
-	ExtraHdr   bool              `json:"extra_header"`
-	Order      []string          `json:"transport_order"`
-	Variables  string            `json:"variables"`
+	Ops       []int    `json:"ops"` // indices into snippets; operation k is named "Op<k>" unless Anonymous
+	Anonymous bool     `json:"anonymous"`
+	Damage    string   `json:"damage"` // "", "parse", "validation", "variable"
+	OpName    string   `json:"operation_name"`
+	HasOpName bool     `json:"has_operation_name"`
+	Transport string   `json:"transport"` // get post graphql urlencoded
+	Accept    string   `json:"accept"`
+	HasAccept bool     `json:"has_accept"`
+	RespCT    string   `json:"response_content_type"` // configured ResponseHeaders Content-Type ("" = none)
+	ExtraHdr  bool     `json:"extra_header"`
+	Order     []string `json:"transport_order"`
+	Variables string   `json:"variables"`
 	// QueryCache: the server caches parsed documents (as handler.NewDefaultServer does); Repeat: the
 	// same request is sent this many times in a row, every answer must satisfy the contract
 	QueryCache bool `json:"query_cache,omitempty"`
